@@ -25,8 +25,8 @@ RULE = ('Case = ProgGen program (kernel kern in module kmod, helpers, internal p
         '(quick) or 4 (thorough) option combinations to a fresh IR; E8 (a)-(d) is evaluated after each application. '
         'Non-trivial = at least one application changed the regenerated text and all oracle parts were evaluated; '
         'distinct = hash of program text + slice.')
-CASES = {'quick': 96, 'thorough': 1600}
-MIN_NONTRIVIAL = {'quick': 60, 'thorough': 1000}
+CASES = {'quick': 96, 'thorough': 640}
+MIN_NONTRIVIAL = {'quick': 60, 'thorough': 400}
 ANCHORS = ['loki/ir/expr_visitors.py', 'loki/types/scope.py', 'loki/transformations/utilities.py',
            'loki/transformations/inline/procedures.py', 'loki/transformations/extract/outline.py']
 REQUIRED_REACH = ['rescope_symbols']
@@ -51,7 +51,8 @@ for _e in wflab.SCHED_REGISTRY:
 
 def gates_for(idx):
     g = (idx // NSLOT) % 8
-    return {'unroll_neg': g == 3, 'io_in_kernel': g == 5, 'allow_known': g == 7,
+    # mixed-case spelling exposes many case-sensitive name comparisons (known findings): 1/8 of the cases
+    return {'unroll_neg': g == 3, 'io_in_kernel': g == 5, 'allow_known': g == 7, 'mixed_case': g == 1,
             'named_cycle_exit': (idx // NSLOT) % 32 == 17}
 
 
